@@ -118,11 +118,25 @@ func b64NoPad(p []byte) string {
 	return sb.String()
 }
 
+// one client factory per execution: like obfs4proxy, which creates a
+// transport's ClientFactory once and sends every connection of the process
+// through it, all Dials of one scheduled execution share a factory (and a new
+// execution starts with a new one, so executions stay independent)
+var (
+	dialFactory      base.ClientFactory
+	dialFactorySched *sched.Sched
+)
+
 // Dial runs the real client (ParseArgs + Dial) over conn.
 func Dial(args *pt.Args, conn net.Conn) (net.Conn, error) {
-	cf, err := (&obfs4.Transport{}).ClientFactory("")
-	if err != nil {
-		return nil, err
+	cf := dialFactory
+	if s := sched.Cur(); cf == nil || s == nil || s != dialFactorySched {
+		var err error
+		cf, err = (&obfs4.Transport{}).ClientFactory("")
+		if err != nil {
+			return nil, err
+		}
+		dialFactory, dialFactorySched = cf, s
 	}
 	pa, err := cf.ParseArgs(args)
 	if err != nil {
